@@ -26,7 +26,7 @@ pub fn exec(op: &str, args: &[&str]) -> String {
         "verify" => sigma::op_verify(args),
         "new" => sigma::op_new(args),
         "prove" => sigma::op_prove(args),
-        "mprove" => sigma::op_mprove(args),
+        "mprove" | "forge" => sigma::op_mprove(args),
         "rnew" => range::op_rnew(args),
         "rprove" => range::op_rprove(args),
         "rmprove" => "emit:".to_string(),
